@@ -14,6 +14,7 @@ SPEC = {
             "readers that return whole, one-byte, half and random-chunk reads; in three quarters of the re-use sequences all []byte arguments live in one caller arena that is overwritten in place between calls; "
             "every byte slice the API returns (marshalled keys and contexts, enc, ciphertexts, plaintexts, exports) is copied and then overwritten in place by the harness before the objects are used again; "
             "for every KEM x mode cell Setup*(nil, ...) (randomness from crypto/rand) is checked against the reference receiver together with the nil / empty forms of info, pt, aad, exporter context and export lengths 0 and 255*Nh; "
+            "in every grid / cell case copies of both contexts are restored (documented MarshalBinary layout) at a structured or random 96-bit sequence number and three further messages are compared with the reference; "
             "a reduced grid (X25519, X448, both hybrids, P-256) also runs on the purego build and with cpu.avx2/bmi2/adx switched off (quick: purego and all-off). "
             "non-trivial = the case's mode is not base, or it is a negative relation (receiver differing in exactly one of skR/info/psk/psk_id/mode/pkS), "
             "or an asserted row of the PSK table, or an official vector, or a re-use sequence with two different modes, or an altered enc; distinct by FNV-64 of (sub-check, suite, mode, all inputs, relation)",
